@@ -31,6 +31,7 @@ def dispatch (line : String) : String :=
       | "cycles" => handleCycles args obs
       | "cnt" => handleCnt args obs
       | "cntwin" => handleCnt args obs
+      | "cntunw" => handleCnt args obs
       | "cnthammer" => handleHammer args obs
       | "cntshared" => handleShared args obs
       | "life" => handleLife args obs
